@@ -627,9 +627,9 @@ impl Prop for C17 {
     fn rule() -> String {
         "proptest: module paths of depth 1..4 over a name pool built to collide textually (node1/node10/node1x, a/ab/aé, lan/lan0, ä), closed under \
          prefixes; flat dotted-key YAML with specific components and '<any>' at generated depths (also twice), property names of 1-2 components, scalar \
-         values; checked (a) directly via Cfg::capture_for_into, (b) via SimBuilder::include_cfg before node(), (c) node() before include_cfg. Oracle: \
+         values; checked (a) directly via Cfg::capture_for_into, (b) via SimBuilder::include_cfg before node(), (c) node() before include_cfg (also with a property typed before the late include), (d) include_cfg before node() with a module that looks up its properties while it is created. Oracle: \
          an independent matcher on key components gives the exact expected key set per module (iff), each value must come from a matching entry, all \
-         three routes agree, capture never panics. Typed sub-sequences Read<T>/Write<T> on captured and absent keys: the first successful type \
+         routes agree, capture never panics. Typed sub-sequences Read<T>/Write<T>/TwoHandles (two handles of different types taken on an absent key, written through both) on captured and absent keys: the first successful type \
          sticks, another type is an error, failed conversions leave the entry readable with its natural type. Non-trivial iff an entry is addressed to \
          a sibling whose name has the module's name as textual prefix AND a wildcard and a specific entry (or two entries) yield the same property \
          AND a module of depth >= 2 receives a property."
